@@ -417,8 +417,9 @@ export class SchemaPrintingContext {
   constructor(options: SchemaPrintingContextOptions) {
     this.refPathTemplate = options.refPathTemplate;
     this.definitionContainerKey = options.definitionContainerKey;
-    this.collectedDefinitions = {};
-    this.inProgressDefinitions = {};
+    // keyed by type names, which may equal members of Object.prototype (`toString`, `constructor`): no prototype
+    this.collectedDefinitions = Object.create(null);
+    this.inProgressDefinitions = Object.create(null);
     this.namedTypeSchemaOverrides = Object.fromEntries(
       Object.entries(options.namedTypeSchemaOverrides ?? {}).map(([name, parser]) => [
         name,
@@ -1791,7 +1792,7 @@ export class AnyOfDiscriminatedRuntype extends BaseRuntype {
     });
   }
   private getSchemaVariantRefs(ctx: SchemaContext): Array<{ key: string; ref: string }> {
-    const unionHash = this.hash({ seen: {} });
+    const unionHash = this.hash({ seen: Object.create(null) });
     return Object.entries(this.schemaMapping).map(([key, schema]) => ({
       key,
       ref: this.ensureSchemaVariantRef(schema, key, unionHash, ctx),
@@ -2513,7 +2514,7 @@ class ParserFromRuntype implements BeffParser<any> {
   schema(): JSONSchema7 {
     const ctx = {
       path: [],
-      seen: {},
+      seen: Object.create(null),
       mode: "flat" as const,
     };
     return this._runtype.schema(ctx);
@@ -2521,7 +2522,7 @@ class ParserFromRuntype implements BeffParser<any> {
   schemaWithContext(schemaPrintingContext: SchemaPrintingContext): JSONSchema7 {
     const ctx = {
       path: [],
-      seen: {},
+      seen: Object.create(null),
       mode: "contextual" as const,
       printingContext: schemaPrintingContext,
     };
@@ -2530,8 +2531,8 @@ class ParserFromRuntype implements BeffParser<any> {
   describe(): string {
     const ctx: DescribeContext = {
       activeRefs: new Set(),
-      definitions: {},
-      refCounts: {},
+      definitions: Object.create(null),
+      refCounts: Object.create(null),
       visitedRefs: new Set(),
     };
     collectDescribeRefs(this._runtype, ctx);
@@ -2550,7 +2551,7 @@ class ParserFromRuntype implements BeffParser<any> {
   }
   hash(): number {
     const ctx = {
-      seen: {},
+      seen: Object.create(null),
     };
     return this._runtype.hash(ctx);
   }
